@@ -294,6 +294,16 @@ func (tr *gtTr) loop(sp loopSpec, env *venv, next cont) gnode {
 	used := tr.usedVars
 	tr.fn, tr.usedVars = outerFn, outerUsed
 	tr.inherit(sub)
+	for _, m := range outerFn.muts {
+		if m.typ.usesValue() {
+			sub.usesV = true
+		}
+	}
+	for _, r := range outerFn.results {
+		if r.usesValue() {
+			sub.usesV = true
+		}
+	}
 	lp.implicit = sub.implicitArgs()
 	isParam := map[string]bool{}
 	for _, n := range entryState {
